@@ -760,13 +760,13 @@ class SymPath(_PathBase):
         return SymInt(t)
 
     def bound(self, name, lo, hi, inf=True):
-        """finite symbolic real in [lo,hi], or +inf / -inf by structural choice"""
-        if inf:
-            k = self.choice(name + ".kind", 3, ["finite", "+inf", "-inf"])
-            if k == 1:
-                return float("inf")
-            if k == 2:
-                return float("-inf")
+        """finite symbolic real in [lo,hi], or an infinity by structural choice.
+        inf: False | True (both) | "+" | "-" (only that infinity)"""
+        kinds = {False: [], True: ["+inf", "-inf"], "+": ["+inf"], "-": ["-inf"]}[inf]
+        if kinds:
+            k = self.choice(name + ".kind", 1 + len(kinds), ["finite"] + kinds)
+            if k:
+                return float(kinds[k - 1])
         return self.real(name, lo, hi)
 
     # -- assumptions and obligations ----------------------------------------------
@@ -1009,12 +1009,11 @@ class ConcretePath(_PathBase):
         return int(v)
 
     def bound(self, name, lo, hi, inf=True):
-        if inf:
-            k = self.choice(name + ".kind", 3, ["finite", "+inf", "-inf"])
-            if k == 1:
-                return float("inf")
-            if k == 2:
-                return float("-inf")
+        kinds = {False: [], True: ["+inf", "-inf"], "+": ["+inf"], "-": ["-inf"]}[inf]
+        if kinds:
+            k = self.choice(name + ".kind", 1 + len(kinds), ["finite"] + kinds)
+            if k:
+                return float(kinds[k - 1])
         return self.real(name, lo, hi)
 
     def fresh(self, name):
@@ -1271,7 +1270,7 @@ def run_one(harness, prefix, res, profile=False, witness_every=0, timeout_ms=300
                                         obligations={k: v for k, v in p.obl.items()}))
             except (Abort, Inconclusive):
                 pass
-        if witness_every and (res.completed % witness_every == 0) and len(res.witnesses) < 60:
+        if witness_every and (res.completed % witness_every == 1 or witness_every == 1) and len(res.witnesses) < 60:
             try:
                 w = p.witness_inputs()
                 if w is not None:
